@@ -1,7 +1,7 @@
 """C01 — without escape, the evolved population equals its closed-form value."""
 import math, warnings
 import numpy as np
-from common import h, uh, hl, jf, jfl, unjf, close, run_driver, loguniform
+from common import h, uh, hl, jf, jfl, unjf, close, run_driver, loguniform, JobTimeout, time_limit
 import real, gen
 from real import evolve_mf
 
@@ -77,12 +77,16 @@ def worker(job):
     cfg = job["cfg"]
     res = {"cfg": cfg}
     try:
-        f0 = build(cfg)
-        f1 = build(cfg, **TIGHT)
-        res["tight_level"] = 12
-        if not f1.converged:
-            f1 = build(cfg, **TIGHT2)
-            res["tight_level"] = 10
+        with time_limit(job.get("limit", 300)):
+            f0 = build(cfg)
+            f1 = build(cfg, **TIGHT)
+            res["tight_level"] = 12
+            if not f1.converged:
+                f1 = build(cfg, **TIGHT2)
+                res["tight_level"] = 10
+    except JobTimeout:
+        res["timeout"] = True
+        return res
     except Exception as e:
         res["error"] = f"{type(e).__name__}: {e}"[:200]
         return res
@@ -282,6 +286,9 @@ def corr(ctx):
     worst = 0.0
     for res in rs:
         cfg = res["cfg"]
+        if res.get("timeout"):
+            ctx.corr_case("closed", True, None, branch="timeout (tightened run > 300 s)", indeterminate=True)
+            continue
         if "error" in res:
             ctx.corr_case("closed", False, {"cfg": cfg, "error": res["error"]}, branch="error")
             continue
@@ -307,6 +314,8 @@ REL = {"d": 15e-2, "t": 1e-5}
 
 def check_rows(res):
     cfg = res["cfg"]
+    if res.get("timeout"):
+        return None
     if "error" in res:
         return {"clause": "a valid no-escape configuration evolves without error", "observed": res["error"]}
     worst = {"d": 0.0, "t": 0.0}
